@@ -13,6 +13,20 @@ COMMON_NOTE = ("Trusted: Lean 4.33 kernel (axioms of every property theorem audi
                "/repo's working tree by the correspondence check of each run (line protocol, generated inputs) and "
                "agreement is established on those inputs only; Python/NumPy primitive semantics as mirrored in the model.")
 
+_ST = (" Source tie (DESIGN.md section 16): the CURRENT text of {f} in /repo is translated into Lean by checks/pygen.py on every run and "
+       "the kernel re-checks {t}: the translated definition equals the model's for all inputs (trusted: the translator, Mathlib's Int.land "
+       "as Python's `&`, totalised list indexing).")
+SRC_TIE = {
+    "C03": _ST.format(f="typeutils._to_slot_size", t="XoGen.src_to_slot_size"),
+    "C05": _ST.format(f="typeutils._to_slot_size", t="XoGen.src_to_slot_size"),
+    "C04": _ST.format(f="context._align", t="XoGen.src_align (alignments that are powers of two)"),
+    "C12": _ST.format(f="context._align", t="XoGen.src_align (alignments that are powers of two)"),
+    "C01": _ST.format(f="array.get_c_strides / get_strides / get_offset", t="XoGen.src_get_c_strides, src_get_strides, src_get_offset"),
+    "C02": _ST.format(f="array.get_c_strides / get_strides", t="XoGen.src_get_c_strides, src_get_strides"),
+    "C06": _ST.format(f="array.get_c_strides / get_strides / get_offset", t="XoGen.src_get_c_strides, src_get_strides, src_get_offset"),
+    "C11": _ST.format(f="array.bound_check", t="XoGen.src_bound_check (IndexError exactly when the model's boundCheck refuses)"),
+}
+
 LAY = "Lean 4 proof over the layout proof model (patch-list writer `patchesD`, view reader `readD`) for the reference-free grammar incl. N-D arrays of static/dynamic items in any axis order: mutual structural induction over types/fields/items with the agreement-strengthened round trip and the frame lemma; the proof model's definitions are executed against the real library on every reference-free case of every run (whole-buffer image), the executable full-grammar model on all cases; "
 
 # id -> (technique, level text, level note extra, design ref)
@@ -344,7 +358,7 @@ def main():
                 "replay_cmd_template": f"/venv/bin/python checks/run.py {pid} --replay {{path}}",
                 "engine": "lean4-model+correspondence",
                 "level_claimed": {"category": "proof", "text": text, "design_ref": f"DESIGN.md section {ref}"},
-                "level_note": COMMON_NOTE + " " + note,
+                "level_note": COMMON_NOTE + " " + note + SRC_TIE.get(pid, ""),
                 "technique": tech,
             })
         else:
@@ -366,6 +380,13 @@ def main():
             "kind_free_text": "machine-checked proof in Lean 4 about a hand-written executable model; correspondence check "
                               "(differential line protocol) against the real code on every run; model-independent oracles "
                               "for the failing-input search",
+        }, {
+            "name": "source-to-lean translator",
+            "path": "checks/pygen.py, lean/XoGen/ (Lake library XoGen: generated Src/*.lean + hand-written Tie*.lean)",
+            "serves_properties": sorted(SRC_TIE),
+            "kind_free_text": "the arithmetic helpers of /repo (_to_slot_size, _align, get_c_strides, get_strides, get_offset, bound_check) are "
+                              "regenerated as Lean definitions from the source text on every run; kernel-checked theorems state that "
+                              "each equals the model's definition for all inputs",
         }],
         "checks": checks,
         "not_applicable": na,
